@@ -6,7 +6,10 @@ import (
 	"sort"
 	"strconv"
 	"strings"
+	"sync"
+	"time"
 
+	"github.com/lindb/lindb/internal/verifhook"
 	"github.com/lindb/lindb/pkg/timeutil"
 	"github.com/lindb/lindb/tsdb"
 	"github.com/lindb/lindb/zzverif/internal/core"
@@ -64,7 +67,7 @@ func runFixed(c *core.Ctx, i int) {
 		runMonthCase(c, nil, 0)
 		return
 	}
-	r, err := newRun(c, 10000)
+	r, err := newRunOpt(c, 10000, i == 19 || i == 21) // one-worker scanner pool: see env.oneScanner
 	if err != nil {
 		c.Fail("harness-setup", err.Error())
 		return
@@ -276,7 +279,135 @@ func runFixed(c *core.Ctx, i int) {
 		qg2.by = []int{1, 2}
 		r.query(qg2)
 		r.c.Branch("fixed/source-with-only-untagged-series")
+	case 19:
+		// region container-boundary-multi-field, minimal shape: a metric with two fields, four series
+		// with the real ids 65535 | 65536, 65537 | 131072 (three roaring containers = three series
+		// buckets in the flushed metric block; 65536 and 131072 are the first entries of their buckets,
+		// written right after the previous bucket's footer). Memory, flushed, second flush, compacted
+		// (the merger writes through the same flusher), reopened: every answer must be the reference.
+		r.oracleOn = true
+		r.idPool = []uint32{65535, 65536, 65537, 131072}
+		sC := seriesDef{id: 3, tags: map[int]int{1: 3, 2: 1}}
+		sD := seriesDef{id: 4, tags: map[int]int{1: 1, 2: 2}}
+		all4 := []seriesDef{sA, sB, sC, sD}
+		qb := qSpec{qs: qs, qe: qe, ratio: 1, cond: allCond(), by: []int{1, 2}, items: []qItem{{1, fnSum}, {3, fnMax}}}
+		qn := qSpec{qs: qs, qe: qe, ratio: 1, cond: allCond(), items: []qItem{{1, fnSum}, {3, fnMax}}}
+		q1f := qSpec{qs: qs, qe: qe, ratio: 1, cond: allCond(), by: []int{1, 2}, items: []qItem{{3, fnMax}}}
+		ask := func() { r.query(qb); r.query(qn); r.query(q1f) }
+		for k, s := range all4 {
+			r.writeRow(0, s, 3+k, 0, []fieldVal{{1, float64(1 + k)}, {3, float64(10 * (k + 1))}}, nil, false)
+		}
+		ask()
+		r.flush(0)
+		ask()
+		for k, s := range all4 {
+			r.writeRow(0, s, 20+k, 0, []fieldVal{{1, float64(5 + k)}, {3, float64(7 * (k + 1))}}, nil, false)
+		}
+		ask()
+		r.flush(0)
+		ask()
+		r.compact(0)
+		ask()
+		r.reopen()
+		ask()
+		r.c.Branch("fixed/container-boundary-multi-field")
+	case 20:
+		runContainerRace(r)
+	case 21:
+		// witness of finding memdb-index-load-missing-container-negative-index: series 65535
+		// (container 0) and 65536 (container 1) are written; restart (everything is flushed, the
+		// memory databases' metric index starts empty); only series 65535 is written again. A query
+		// over both series starts a data load for container 1 on the memory database, whose index
+		// holds container 0 only: GetContainerIndex answers -2 (insertion point), the guard of
+		// timeSeriesIndex.Load tests `== -1`, ids.Values()[-2] panics, the query fails.
+		r.idPool = []uint32{65535, 65536}
+		r.writeRow(0, sA, 5, 0, w1(1, 3), nil, false)
+		r.writeRow(0, sB, 7, 0, w1(1, 100), nil, false)
+		r.reopen()
+		r.writeRow(0, sA, 9, 0, w1(1, 4), nil, false)
+		q := qSpec{qs: qs, qe: qe, ratio: 1, cond: allCond(), by: []int{1}, items: []qItem{{1, fnSum}}}
+		want := r.nv.query(q).render()
+		res, errMsg, err := r.e.leafQuery(spf, q)
+		got := lineOf(res, errMsg, err)
+		r.c.NonTrivial()
+		const key = "memdb-index-load-missing-container-negative-index"
+		switch {
+		case got == want:
+			r.c.Note("finding " + key + " did not reproduce")
+			r.c.Branch("witness/not-reproduced:" + key)
+		case strings.Contains(errMsg, "index out of range [-2]"):
+			r.c.Fail(key, fmt.Sprintf("series 65535 and 65536 flushed by a restart, then only 65535 written: select sum(fsum) group by k1 fails with %q, reference %q", errMsg, want))
+			r.c.Branch("witness/reproduced:" + key)
+		default:
+			r.c.Fail("query-ne-naive", fmt.Sprintf("witness %s: leaf answered %q, reference %q", key, got, want))
+		}
+		// once the memory database holds both containers again the query is answered (model as well)
+		r.writeRow(0, sB, 11, 0, w1(1, 50), nil, false)
+		r.oracleOn = true
+		r.query(q)
 	}
+}
+
+// raceKey is the stable key of the finding replayed by runContainerRace.
+const raceKey = "memdb-parallel-container-load-shares-field-entries"
+
+// runContainerRace: witness of finding memdb-parallel-container-load-shares-field-entries. One
+// memory database holds series A (real id 65535, container 0; slot 5 = 3) and series B (id 65536,
+// container 1; slot 7 = 100). A query on both starts one data-load stage per container; both loaders
+// are built from the SAME memFilterResultSet and share its []*fieldEntry, and
+// timeSeriesIndex.Load does `fm.Reset(page of this series)` and then reads through fm. The yield
+// point between the two statements (memdb.timeSeriesIndex.load.afterResetPage) parks the first
+// loader until the second one has reset the shared entry to ITS series' page: both groups are then
+// answered with one and the same page.
+func runContainerRace(r *run) {
+	spf := r.spf
+	qs, qe := fullRange(spf, 0)
+	r.idPool = []uint32{65535, 65536}
+	r.writeRow(0, sA, 5, 0, w1(1, 3), nil, false)
+	r.writeRow(0, sB, 7, 0, w1(1, 100), nil, false)
+	q := qSpec{qs: qs, qe: qe, ratio: 1, cond: allCond(), by: []int{1}, items: []qItem{{1, fnSum}}}
+	want := r.nv.query(q).render()
+	var mu sync.Mutex
+	arrived := 0
+	second := make(chan struct{})
+	verifhook.Set(func(id string) {
+		if id != "memdb.timeSeriesIndex.load.afterResetPage" {
+			return
+		}
+		mu.Lock()
+		arrived++
+		n := arrived
+		mu.Unlock()
+		switch n {
+		case 1:
+			select { // wait for the other container's loader to reset the shared field entry
+			case <-second:
+			case <-time.After(2 * time.Second):
+			}
+		case 2:
+			close(second)
+		}
+	})
+	res, errMsg, err := r.e.leafQuery(spf, q)
+	verifhook.Set(nil)
+	got := lineOf(res, errMsg, err)
+	r.c.NonTrivial()
+	r.c.Note(fmt.Sprintf("two containers of one memory database loaded with the forced interleaving: %s (reference %s; loaders that reached the yield point: %d)", got, want, arrived))
+	switch {
+	case got == want:
+		r.c.Note("finding " + raceKey + " did not reproduce")
+		r.c.Branch("witness/not-reproduced:" + raceKey)
+	case got == "rs [1] f1/a1=7:100 ; [2] f1/a1=7:100" || got == "rs [1] f1/a1=5:3 ; [2] f1/a1=5:3":
+		r.c.Fail(raceKey, fmt.Sprintf("select sum(fsum) group by k1 over series 65535 (slot 5 = 3) and 65536 (slot 7 = 100) of ONE memory database, second container's loader resets the shared field entry before the first one reads: leaf answered %q, reference %q", got, want))
+		r.c.Branch("witness/reproduced:" + raceKey)
+	default:
+		r.c.Fail("query-ne-naive", fmt.Sprintf("witness %s: leaf answered %q, reference %q", raceKey, got, want))
+	}
+	// without the forced interleaving the same query is asked through the model as well
+	r.oracleOn = false
+	r.flush(0)
+	r.oracleOn = true
+	r.query(q)
 }
 
 // runFlushWindow: queries concurrent with a flush, sequentialised at the two points of the
